@@ -528,6 +528,184 @@ fn tpl_with_origin(cd: &mut [u8], ty: &[u8; 12], ch: &[u8; 43]) -> usize {
     o = put(cd, o, ch);
     put(cd, o, b"\",\"origin\":\"https://example.com\"}")
 }
+// SYMBOLIC field contents (12 + 43 symbolic bytes between concrete structure). NOT REGISTERED: out of reach, see
+// checks/reg_merkle.py (each symbolic byte may be a quote or a backslash, so after the first string value the
+// parser's cursor is symbolic and every later loop iteration forks into UTF-8 validation and back-slash counting).
 webauthn_template!(webauthn_verify_tc, webauthn_verify_tc_accepts, 100, 81, tpl_type_challenge);
 webauthn_template!(webauthn_verify_ct, webauthn_verify_ct_accepts, 100, 81, tpl_challenge_type);
-webauthn_template!(webauthn_verify_origin, webauthn_verify_origin_accepts, 130, 112, tpl_with_origin);
+
+// ---------------------------------------------------------------- webauthn::verify on CONCRETE client-data documents
+// The JSON text is concrete (so the real parser runs deterministically); payload, authenticator data, public
+// key and signature are symbolic.
+/// the fixed 32-byte payload whose base64url is the documents' challenge
+pub fn doc_payload() -> [u8; 32] {
+    let mut p = [0u8; 32];
+    let mut k = 0;
+    while k < 32 {
+        p[k] = (k as u8).wrapping_mul(37).wrapping_add(11);
+        k += 1;
+    }
+    p
+}
+pub const DOC_MAX: usize = 160;
+/// the documents: (type, challenge = base64url(doc_payload()) possibly damaged) in several concrete shapes
+pub fn doc(which: u8, cd: &mut [u8; DOC_MAX]) -> usize {
+    let ch = ref_b64_32(&doc_payload());
+    let get = b"webauthn.get";
+    match which {
+        // the two field orders
+        0 => tpl_type_challenge(cd, get, &ch),
+        1 => tpl_challenge_type(cd, get, &ch),
+        // extra members (string, boolean, nested object), white space
+        2 => {
+            let mut o = put(cd, 0, b"{ \"type\" : \"webauthn.get\",\n \"challenge\":\"");
+            o = put(cd, o, &ch);
+            put(cd, o, b"\",\"origin\":\"https://example.com\",\"crossOrigin\":false,\"x\":{\"a\":[1,2]}}")
+        }
+        // wrong type
+        3 => {
+            let mut o = put(cd, 0, b"{\"type\":\"webauthn.create\",\"challenge\":\"");
+            o = put(cd, o, &ch);
+            put(cd, o, b"\"}")
+        }
+        // challenge of another payload (last character differs)
+        4 => {
+            let mut c2 = ch;
+            c2[42] = if c2[42] == b'A' { b'E' } else { b'A' };
+            tpl_type_challenge(cd, get, &c2)
+        }
+        // challenge with padding appended (44 characters)
+        5 => {
+            let mut o = put(cd, 0, b"{\"type\":\"webauthn.get\",\"challenge\":\"");
+            o = put(cd, o, &ch);
+            put(cd, o, b"=\"}")
+        }
+        // type member missing
+        6 => {
+            let mut o = put(cd, 0, b"{\"challenge\":\"");
+            o = put(cd, o, &ch);
+            put(cd, o, b"\"}")
+        }
+        // type given twice, the first one wrong
+        _ => {
+            let mut o = put(cd, 0, b"{\"type\":\"webauthn.create\",\"type\":\"webauthn.get\",\"challenge\":\"");
+            o = put(cd, o, &ch);
+            put(cd, o, b"\"}")
+        }
+    }
+}
+fn mk_doc_assertion(e: &Env, which: u8) -> Assertion {
+    let mut cd = [0u8; DOC_MAX];
+    let n = doc(which, &mut cd);
+    mk_assertion(e, &cd[..n])
+}
+macro_rules! webauthn_doc_ok {
+    ($name:ident, $accepts:ident, $which:expr) => {
+        /// true => payload is the one named by the challenge, flags fine, oracle asked exactly (key, digest, signature)
+        #[kani::proof]
+        #[kani::unwind(200)]
+        pub fn $name() {
+            let e = Env::default();
+            let a = mk_doc_assertion(&e, $which);
+            let r = webauthn::verify(&e, &a.payload, &a.pub_key, &a.sig);
+            prop!(r, "C18.webauthn.verify.returns_true_or_fails");
+            let want = doc_payload();
+            let mut ok = true;
+            let mut k = 0;
+            while k < 32 {
+                ok &= a.payload32[k] == want[k];
+                k += 1;
+            }
+            prop!(ok, "C18.webauthn.verify.challenge_is_base64url_of_payload");
+            prop!(flags_ok(a.auth[32]), "C18.webauthn.verify.flags_up_uv_and_consistent_backup");
+            let q = expected_query(&e, &a);
+            let c = model::call_at(0);
+            prop!(
+                model::n_calls() == 1 && c.callee == CRYPTO && c.func == Symbol::of("secp256r1_verify") && !c.failed && c.args.eq(&q),
+                "C18.webauthn.verify.accepted_only_if_oracle_accepts_exactly_key_digest_signature"
+            );
+            witness!(a.auth[32] == 0x05, "accepted_minimal_flags");
+            witness!(a.auth[32] == 0x1d, "accepted_backed_up");
+            kani::assert(!world().overflow, "MODEL-OVERFLOW: flag set");
+        }
+        /// genuine, well-formed assertion + accepting oracle => accepted
+        #[kani::proof]
+        #[kani::unwind(200)]
+        pub fn $accepts() {
+            let e = Env::default();
+            let mut a = mk_doc_assertion(&e, $which);
+            a.payload32 = doc_payload();
+            a.payload = Bytes::from_array(&e, &a.payload32);
+            kani::assume(flags_ok(a.auth[32]));
+            model::preset_call::<()>(0, false, &());
+            world().must_succeed = true;
+            let r = webauthn::verify(&e, &a.payload, &a.pub_key, &a.sig);
+            world().must_succeed = false;
+            prop!(r, "C18.webauthn.verify.genuine_assertion_accepted");
+            witness!(true, "accepted");
+            kani::assert(!world().overflow, "MODEL-OVERFLOW: flag set");
+        }
+    };
+}
+macro_rules! webauthn_doc_bad {
+    ($name:ident, $which:expr, $clause:literal) => {
+        #[kani::proof]
+        #[kani::unwind(200)]
+        pub fn $name() {
+            let e = Env::default();
+            let a = mk_doc_assertion(&e, $which);
+            witness!(true, "reached_call");
+            let _ = webauthn::verify(&e, &a.payload, &a.pub_key, &a.sig);
+            prop!(false, $clause);
+        }
+    };
+}
+webauthn_doc_ok!(webauthn_doc_type_challenge, webauthn_doc_type_challenge_accepts, 0);
+webauthn_doc_ok!(webauthn_doc_challenge_type, webauthn_doc_challenge_type_accepts, 1);
+webauthn_doc_ok!(webauthn_doc_extra_members, webauthn_doc_extra_members_accepts, 2);
+webauthn_doc_bad!(webauthn_doc_wrong_type, 3, "C18.webauthn.verify.wrong_type_never_accepted");
+webauthn_doc_bad!(webauthn_doc_padded_challenge, 5, "C18.webauthn.verify.padded_challenge_never_accepted");
+webauthn_doc_bad!(webauthn_doc_missing_type, 6, "C18.webauthn.verify.missing_type_never_accepted");
+webauthn_doc_bad!(webauthn_doc_duplicate_type, 7, "C18.webauthn.verify.duplicate_type_never_accepted");
+
+/// document 4 names another payload: accepted only for THAT payload, never for doc_payload()
+#[kani::proof]
+#[kani::unwind(200)]
+pub fn webauthn_doc_other_challenge() {
+    let e = Env::default();
+    let a = mk_doc_assertion(&e, 4);
+    let _ = webauthn::verify(&e, &a.payload, &a.pub_key, &a.sig);
+    let want = doc_payload();
+    let mut same = true;
+    let mut k = 0;
+    while k < 32 {
+        same &= a.payload32[k] == want[k];
+        k += 1;
+    }
+    prop!(!same, "C18.webauthn.verify.challenge_of_another_payload_rejected");
+    witness!(true, "accepted_for_the_other_payload");
+}
+
+/// the oracle rejects => never accepted; authenticator data shorter than 37 bytes => never accepted
+#[kani::proof]
+#[kani::unwind(200)]
+pub fn webauthn_doc_oracle_rejects() {
+    let e = Env::default();
+    let a = mk_doc_assertion(&e, 0);
+    model::preset_call::<()>(0, true, &());
+    witness!(true, "reached_call");
+    let _ = webauthn::verify(&e, &a.payload, &a.pub_key, &a.sig);
+    prop!(false, "C18.webauthn.verify.invalid_signature_never_accepted");
+}
+#[kani::proof]
+#[kani::unwind(200)]
+pub fn webauthn_doc_short_auth_data() {
+    let e = Env::default();
+    let mut a = mk_doc_assertion(&e, 0);
+    let n: usize = kani::any();
+    kani::assume(n < 37);
+    a.sig.authenticator_data = Bytes::from_slice(&e, &a.auth[..n]);
+    witness!(n == 36, "reached_call_36");
+    let _ = webauthn::verify(&e, &a.payload, &a.pub_key, &a.sig);
+    prop!(false, "C18.webauthn.verify.authenticator_data_below_37_bytes_never_accepted");
+}
